@@ -489,7 +489,13 @@ def c02_macro_sizes(ctx):
     c10_1(ctx)
 
 
-RULES = [c02_1, c02_2, c02_3, c02_4, c02_5, c02_6, c02_macro_sizes]
+def c02_zone_of_line(ctx):
+    """A label has the address of the next line only if both live in the same zone: zone provenance (C05.6) re-evaluated."""
+    from rules.c05 import zone_provenance
+    zone_provenance(ctx)
+
+
+RULES = [c02_1, c02_2, c02_3, c02_4, c02_5, c02_6, c02_macro_sizes, c02_zone_of_line]
 
 _E = 'assembler/engine.py'
 _FD = 'assembler/line_object/directive_line/fill_data.py'
